@@ -84,21 +84,17 @@ Proof. exact @uncached_twin_is_pipe_run. Qed.
 Print Assumptions C09_uncached_twin_is_pipe_run.
 
 (* ---------- no re-execution ---------- *)
-(* A call does not execute a cached function f0 whose entry (the key k0 that requests for f0's outputs compute in
-   this call) is resident when the call starts - for policies that never evict (SimpleCache, DiskCache without
+(* A call does not execute a cached function f0 whose entry (the key k0 that a request for an output o0 of f0
+   computes in this call: `the_key` = the key of CacheSem.crun_out) is resident when the call starts - for policies that never evict (SimpleCache, DiskCache without
    max_size); the entry is still resident afterwards, so this holds for every repetition. *)
 Theorem C09_no_reexec_when_resident :
   forall body pick (C : Type) (P : policy C) (p : pipeline), wf_pipeline p -> never_evicts P ->
-  forall kw full c o f0 k0 r lg c',
-    In f0 p ->
-    (forall o' ra, In o' (outs f0) -> root_args p o' = Ok ra -> the_key p kw true f0 ra = Some k0) ->
+  forall kw full c o f0 o0 ra k0 r lg c',
+    In f0 p -> In o0 (outs f0) -> root_args p o0 = Ok ra -> the_key p kw true f0 ra = Some k0 ->
     cmem P c k0 = true ->
     crun body pick P false true p c o kw full = (r, lg, c') ->
     (forall call, In call lg -> fst call <> fname f0) /\ cmem P c' k0 = true.
-Proof.
-  intros body pick C P p WF NE kw full c o f0 k0 r lg c' Hf Hk Hm H.
-  exact (no_reexec_resident body pick P p WF kw full c o f0 k0 r lg c' Hf Hk NE Hm H).
-Qed.
+Proof. exact @no_reexec_resident'. Qed.
 Print Assumptions C09_no_reexec_when_resident.
 
 Theorem C09_simple_never_evicts : never_evicts simple_policy.
@@ -203,10 +199,17 @@ Proof. vm_compute. auto. Qed.
 Example C09_no_reexec_instance :
   let kw := [(s "a", s "1")] in
   let '(_, _, c1) := crun Sym.body Sym.pick simple_policy false true p_cut [] (s "c") kw false in
-  exists k0, (forall o' ra, In o' (outs fc) -> root_args p_cut o' = Ok ra -> the_key p_cut kw true fc ra = Some k0)
-             /\ cmem simple_policy c1 k0 = true.
+  exists ra k0, In (s "c") (outs fc) /\ root_args p_cut (s "c") = Ok ra /\ the_key p_cut kw true fc ra = Some k0
+                /\ cmem simple_policy c1 k0 = true.
 Proof.
   cbv zeta. destruct (crun _ _ _ _ _ _ _ _ _ _) as [[r lg] c1] eqn:E. vm_compute in E. injection E as _ _ <-.
-  exists (KCall [s "c"] [(s "a", s "1")]). split; [|vm_compute; reflexivity].
-  intros o' ra [<-|[]] H. vm_compute in H. injection H as <-. vm_compute. reflexivity.
+  exists [s "a"], (KCall [s "c"] [(s "a", s "1")]). vm_compute. auto.
 Qed.
+
+(* the map path: the second identical invocation is served from the cache and returns the same value *)
+Example C09_map_instance :
+  let kwargs := [(s "a", s "1")] in
+  let '(r1, c1, e1) := get_or_set Sym.body simple_policy fb kwargs [] in
+  let '(r2, _, e2) := get_or_set Sym.body simple_policy fb kwargs c1 in
+  e1 = true /\ e2 = false /\ r1 = r2 /\ r1 = Ok (s "fb(a=1)") /\ In fb p_cut /\ NoDup (akeys kwargs).
+Proof. vm_compute. repeat split; auto. constructor; [intros []|constructor]. Qed.
